@@ -811,7 +811,7 @@ fn do_to_dot<W: Write>(
                     let label = {
                         let mut buffer = String::new();
                         diagnostic_display_input(&mut buffer, input)?;
-                        buffer.replace('\"', "\\\"")
+                        buffer.replace('\\', "\\\\").replace('\"', "\\\"")
                     };
                     writeln!(
                         output,
